@@ -53,6 +53,8 @@ json generate(uint64_t seed, uint64_t idx, int tier)
 					s["v"] = "";
 				if (s["op"] == "addtsec")
 					s["title"] = to_json_bytes(gen_string_value(r, true, 6) + "#" + std::to_string(r.below(1000)));
+				if (s["op"] == "addtsec" && r.chance(1, 10)) // long titles, two of them alike for more than 255 bytes
+					s["title"] = to_json_bytes(std::string(r.chance(1, 2) ? 255 : 300, 'L') + (r.chance(1, 2) ? "-a" : "-b"));
 				steps.push_back(s);
 			}
 		}
